@@ -232,6 +232,7 @@ func runWallet(r *evid.Run, dir string, idx int, cs int64) {
 		outs := []*wire.TxOut{wire.NewTxOut(amt, dpk)}
 		var tx *wire.MsgTx
 		var sendErr error
+		var leased *wire.OutPoint
 		switch mode {
 		case "send":
 			tx, sendErr = f.W.SendOutputs(outs, nil, 0, 1, 2000, wallet.CoinSelectionLargest, "")
@@ -272,6 +273,16 @@ func runWallet(r *evid.Run, dir string, idx int, cs int64) {
 					return nil
 				}
 			}
+			// half of the time one of its inputs is under a lease by then (taken by
+			// whoever asked for the transaction): a refused broadcast must leave the
+			// lease where it was
+			if rg.Intn(2) == 0 {
+				op := tx.TxIn[rg.Intn(len(tx.TxIn))].PreviousOutPoint
+				if _, e := f.W.LeaseOutput(wtxmgr.LockID{7}, op, time.Hour); e == nil {
+					leased = &op
+					r.Hit("attempts-spending-a-leased-input", 1)
+				}
+			}
 			before = f.Snapshot()
 			beforeUnmined = unminedSet(f)
 			sendErr = f.W.PublishTransaction(tx, "")
@@ -282,6 +293,9 @@ func runWallet(r *evid.Run, dir string, idx int, cs int64) {
 		ch.SendHook, ch.NotifyHook = nil, nil
 		ch.Barrier()
 		after := f.Snapshot()
+		if leased != nil {
+			f.W.ReleaseOutput(wtxmgr.LockID{7}, *leased) // judged from the snapshot; the history goes on without it
+		}
 		offered := len(ch.SentTxs()) - sent0
 		log = append(log, fmt.Sprintf("%s answered %q -> err=%v (offered to backend %d times)", mode, class, sendErr, offered))
 		r.Hit("attempts:"+class, 1)
@@ -823,6 +837,7 @@ func main() {
 	r.Require("accepted-broadcasts-recorded", 40)
 	r.Require("reoffer-passes", 20)
 	r.Require("overlapping-resyncs-checked", 2)
+	r.Require("attempts-spending-a-leased-input", 5)
 	r.Require("reoffer-passes-with-rejection", 5)
 	r.Require("mode:chained-send", 5)
 	os.Exit(r.Finish())
